@@ -1,6 +1,6 @@
 rc_target("c11_json_tree", flavour="asan")
 rc_target("c11_json_api", flavour="asan")
-plan("C11", [T("c11_json_tree", 15000, 100000), TT(GCC("c11_json_tree"), 5000), T("c11_json_api", 25000, 150000)], min_nt=8000,
+plan("C11", [T("c11_json_tree", 15000, 100000), TT(GCC("c11_json_tree"), 5000), T("c11_json_api", 25000, 150000), TT(GCC("c11_json_api"), 6000)], min_nt=8000,
      rule="value trees built through the API or parsed from harness-rendered text, serialised compact and formatted, read back by an "
           "independent strict RFC 8259 reader and by the library, compared through the public getters; add/get/has/remove/iterate programs "
           "on one object and one array against an ordered reference",
